@@ -14,6 +14,8 @@ CONSTANTS
   Funds = 1000
   Fees = {0, 1}
   WithRotate = TRUE
+  LimWhere <- AllLimWhere
+  LimitSets <- NoLimits
   SendFrom <- OneWay
 INVARIANTS TypeOK Conservation Exclusive WrappedBacked MarksExact ReceivedWasSent SeqAgree NoGap CommitIsSent OneAckPerReceipt StatusMatchesAck FeesHeld
 PROPERTIES AckStable ReceiptStable StatusOnce CommitRemovedOnlyByAck RejectChangesNothing
